@@ -59,7 +59,7 @@ impl Check for GraphCheck {
     }
     fn budget(&self, tier: Tier) -> Budget {
         match tier {
-            Tier::Quick => Budget { runs: 5000, max_secs: 50.0 },
+            Tier::Quick => Budget { runs: 5000, max_secs: 45.0 },
             Tier::Thorough => Budget { runs: 1_000_000, max_secs: 900.0 },
         }
     }
@@ -186,7 +186,7 @@ impl Check for CancelCheck {
     }
     fn budget(&self, tier: Tier) -> Budget {
         match tier {
-            Tier::Quick => Budget { runs: 2500, max_secs: 60.0 },
+            Tier::Quick => Budget { runs: 15000, max_secs: 45.0 },
             Tier::Thorough => Budget { runs: 400_000, max_secs: 1200.0 },
         }
     }
